@@ -74,6 +74,7 @@ MARKER_PROPS = {
     "VF:huffman.after_clear_not_raw": ["C06", "C08"],
     "VF:huffman.stats_survived_clear": ["C06", "C08"],
     "VF:coded_composite.": ["C10", "C01"],
+    "VF:coded_composite.clear": ["C08", "C01"],
     "VF:huffman.forms.": ["C20"],
     "VF:dictionary.": ["C07"],
     "VF:dictionary.read_differs_from_pushed": ["C07", "C01", "C04", "C10"],
@@ -98,10 +99,12 @@ MARKER_PROPS = {
     "VF:intoowned.slice.region_to_region": ["C14", "C20"],
     "VF:intoowned.slice.region_to_region_index": ["C20"],
     "VF:intoowned.cip": ["C14", "C20", "C12"],
+    "VF:intoowned.optslice": ["C14", "C20"],
     "VF:intoowned.columns.region_to_region": ["C14", "C20"],
     "VF:intoowned.columns.region_to_region_index": ["C12"],
     "VF:intoowned.nested.region_to_region": ["C14", "C20"],
     "VF:flatstack.": ["C03"],
+    "VF:flatstack.clone_from": ["C03", "C09"],
     "VF:flatstack.get.returned_out_of_bounds": ["C03", "C13"],
 }
 
